@@ -4,6 +4,7 @@ import (
 	"fmt"
 	"go/token"
 	"go/types"
+	"sort"
 	"strings"
 
 	"golang.org/x/tools/go/ssa"
@@ -15,11 +16,11 @@ import (
 func init() {
 	Register(&Rule{
 		ID: "C29", Section: "5 C29",
-		Technique: "who-may-write census (Request.ClientAddr, the TCPAddr objects behind ClientAddr/RemoteAddr, Session.isTrustSource, Session/Request.RemoteAddr, bfe_http.Request.RemoteAddr), who-may-call census (parseClientAddr, setClientAddr, SetTrustSource, setHeaderRealAddr), control dependence of header-derived stores on Session.TrustSource(), witness-path analysis of setClientAddr, backward value flow for the X-Real-*/X-Forwarded-For values, string-constant census of X-Real-Ip/X-Real-Port, key classification (constant / constant table / computed-and-compared) of every request-header deletion after mod_header's callback",
+		Technique: "who-may-write census (Request.ClientAddr, the TCPAddr objects behind ClientAddr/RemoteAddr, Session.isTrustSource, Session/Request.RemoteAddr, bfe_http.Request.RemoteAddr), who-may-call census (parseClientAddr, setClientAddr, SetTrustSource, setHeaderRealAddr), control dependence of header-derived stores on Session.TrustSource(), witness-path analysis of setClientAddr, backward value flow for the X-Real-*/X-Forwarded-For values, use census of the X-Real-Ip/X-Real-Port constants (header-key uses; comparisons and log arguments are not uses), value-origin analysis of the ip argument of parseClientAddr with the facts on the way of each origin (X-Real-Ip precedence), key classification (constant / constant table / computed-and-compared) of every request-header deletion after mod_header's callback",
 		Meta: core.Meta{
 			Level:       "other",
-			Explanation: "Decides: (a) Request.ClientAddr is written only by bfe_server.setClientAddr and parseClientAddr; in setClientAddr every path that did not see req.Session.TrustSource() == true stores req.RemoteAddr into req.ClientAddr and nothing can overwrite it afterwards; every other non-nil store and every parseClientAddr call is control-dependent on TrustSource() == true of the request's own session; parseClientAddr is called only from setClientAddr and writes IP/Port only into a TCPAddr it allocated itself (never into the shared socket address object); nobody else writes through ClientAddr/RemoteAddr; setClientAddr is called only from ReverseProxy.ServeHTTP and dominates every module callback and clusterInvoke there; (b) Session.isTrustSource is touched only by Session.TrustSource/SetTrustSource, TrustSource() is `flag == SessionTrustSource` and SetTrustSource stores that constant only under its argument being true; SetTrustSource is called only by mod_trust_clientip's accept handler with the result of IPTable.Search(session.RemoteAddr.IP) of the same session; Session.RemoteAddr is written only by NewSession from conn.RemoteAddr(), Request.RemoteAddr only by NewRequest from the session it stores; (c) mod_header: setHeaderRealAddr is called only by setDefaultHeader with values derived from request.ClientAddr (IP.String(), Itoa(Port)) and writes X-Real-Ip / X-Real-Port with Header.Set (overwrite) from exactly those parameters; setDefaultHeader skips it only when ClientAddr == nil; the X-Forwarded-For value set by modHeaderForwardedAddr ends with the host part of HttpRequest.RemoteAddr, which is written only from the connection's RemoteAddr().String(); no other function of the module mentions the X-Real-Ip / X-Real-Port names. (d) the headers mod_header wrote survive: in ReverseProxy.ServeHTTP and the bfe_server helpers it calls after the HandleAfterLocation callback, every Header.Del / delete on a request header takes a constant or an element of a constant table that does not name X-Real-Ip / X-Real-Port / X-Forwarded-For, or a computed key that was compared against all three names (a key taken from the client's Connection header cannot strip them). Not covered: module ordering at run time (mod_trust_clientip must run at accept), modules that run in HandleForward after mod_header, the disableDefaultHeader switch, header rules of mod_header that a configuration may add, correctness of IPTable.Search, ClientAddr == nil for a trusted peer that sent no usable header (the client's X-Real-Ip then passes through).",
-			RuleText:    "obligations = each writer of the listed fields, each caller of the listed functions, each store/call in setClientAddr and parseClientAddr, each X-Real-*/X-Forwarded-For header write of mod_header, each function mentioning the X-Real-* names, each request-header deletion between the HandleAfterLocation callback and the backend send",
+			Explanation: "Decides: (a) Request.ClientAddr is written only by bfe_server.setClientAddr and parseClientAddr; in setClientAddr every path that did not see req.Session.TrustSource() == true stores req.RemoteAddr into req.ClientAddr and nothing can overwrite it afterwards; every other non-nil store and every parseClientAddr call is control-dependent on TrustSource() == true of the request's own session; parseClientAddr is called only from setClientAddr and writes IP/Port only into a TCPAddr it allocated itself (never into the shared socket address object); nobody else writes through ClientAddr/RemoteAddr; setClientAddr is called only from ReverseProxy.ServeHTTP and dominates every module callback and clusterInvoke there; (a2) for trusted peers the documented precedence holds: the ip handed to parseClientAddr comes from Header.Get(X-Real-Ip), and from any other header (X-Forwarded-For) only on ways that established Header.Get(X-Real-Ip) == \"\" (value origins traced through phis, helper results and helper parameters); setClientAddr stands for its region (unexported helpers called from nowhere else), objects are compared structurally (the parameter of a helper stands for the argument it receives), never by local name; (b) Session.isTrustSource is touched only by Session.TrustSource/SetTrustSource, TrustSource() is `flag == SessionTrustSource` and SetTrustSource stores that constant only under its argument being true; SetTrustSource is called only by mod_trust_clientip's accept handler with the result of IPTable.Search(session.RemoteAddr.IP) of the same session; Session.RemoteAddr is written only by NewSession from conn.RemoteAddr(), Request.RemoteAddr only by NewRequest from the session it stores; (c) mod_header: setHeaderRealAddr is called only by setDefaultHeader with values derived from request.ClientAddr (IP.String(), Itoa(Port)) and writes X-Real-Ip / X-Real-Port with Header.Set (overwrite) from exactly those parameters; setDefaultHeader skips it only when ClientAddr == nil; the X-Forwarded-For value set by modHeaderForwardedAddr ends with the host part of HttpRequest.RemoteAddr, which is written only from the connection's RemoteAddr().String(); no other function of the program uses the X-Real-Ip / X-Real-Port names as a header key or passes them on (a comparison with the name, or a log line printing it, neither reads nor writes the header and is not a use). (d) the headers mod_header wrote survive: in ReverseProxy.ServeHTTP and the bfe_server helpers it calls after the HandleAfterLocation callback, every Header.Del / delete on a request header takes a constant or an element of a constant table that does not name X-Real-Ip / X-Real-Port / X-Forwarded-For, or a computed key that was compared against all three names (a key taken from the client's Connection header cannot strip them). Not covered: module ordering at run time (mod_trust_clientip must run at accept), modules that run in HandleForward after mod_header, the disableDefaultHeader switch, header rules of mod_header that a configuration may add, correctness of IPTable.Search, ClientAddr == nil for a trusted peer that sent no usable header (the client's X-Real-Ip then passes through).",
+			RuleText:    "obligations = each writer of the listed fields, each caller of the listed functions, each store/call in setClientAddr and parseClientAddr, each X-Real-*/X-Forwarded-For header write of mod_header, each function using the X-Real-* names as a key, per parseClientAddr call the origins of its ip argument, each request-header deletion between the HandleAfterLocation callback and the backend send",
 			Assumptions: []string{"net.TCPAddr values reachable from Session.RemoteAddr are not mutated through other aliases (the census covers the three access paths ClientAddr, Request.RemoteAddr, Session.RemoteAddr)"},
 		},
 		Run: runC29,
@@ -40,6 +41,9 @@ func init() {
 			{Name: "hop-table-lists-forwarded-for", File: "bfe_basic/common.go", Old: "	\"Transfer-Encoding\",\n	\"Upgrade\",\n}", New: "	\"Transfer-Encoding\",\n	\"Upgrade\",\n	\"X-Forwarded-For\",\n}", Expect: "real-addr-survives|"},
 			{Name: "silent-del-through-helper", Silent: true, File: "bfe_server/reverseproxy.go", Old: "		outreq.Header.Del(h)\n	}\n}", New: "		dropHopHeader(outreq, h)\n	}\n}\n\nfunc dropHopHeader(r *bfe_http.Request, name string) {\n	r.Header.Del(name)\n}"},
 			{Name: "silent-locals", Silent: true, File: "bfe_server/set_client_addr.go", Old: "	if !req.Session.TrustSource() { // request not from upstream bfe server\n		req.ClientAddr = req.RemoteAddr\n		return\n	}\n", New: "	trusted := req.Session.TrustSource()\n	if !trusted {\n		peer := req.RemoteAddr\n		req.ClientAddr = peer\n		return\n	}\n"},
+			{Name: "silent-trust-test-in-helper", Silent: true, File: "bfe_server/set_client_addr.go", Old: "\tif !req.Session.TrustSource() { // request not from upstream bfe server\n\t\treq.ClientAddr = req.RemoteAddr\n\t\treturn\n\t}\n\n\treq.ClientAddr = nil\n\tclientip := req.HttpRequest.Header.Get(bfe_basic.HeaderRealIP)\n\tclientport := req.HttpRequest.Header.Get(bfe_basic.HeaderRealPort)\n\tif clientip == \"\" {\n\t\tclientip = getFirstSplitFromHeader(req, bfe_basic.HeaderForwardedFor, \",\")\n\t\tclientport = getFirstSplitFromHeader(req, bfe_basic.HeaderForwardedPort, \",\")\n\t}\n\tif clientip != \"\" {\n\t\tparseClientAddr(req, clientip, clientport)\n\t}\n}\n", New: "\tif !fromTrustedPeer(req) { // request not from upstream bfe server\n\t\treq.ClientAddr = req.RemoteAddr\n\t\treturn\n\t}\n\n\treq.ClientAddr = nil\n\tclientip := req.HttpRequest.Header.Get(bfe_basic.HeaderRealIP)\n\tclientport := req.HttpRequest.Header.Get(bfe_basic.HeaderRealPort)\n\tif clientip == \"\" {\n\t\tclientip = getFirstSplitFromHeader(req, bfe_basic.HeaderForwardedFor, \",\")\n\t\tclientport = getFirstSplitFromHeader(req, bfe_basic.HeaderForwardedPort, \",\")\n\t}\n\tif clientip != \"\" {\n\t\tparseClientAddr(req, clientip, clientport)\n\t}\n}\n\n// fromTrustedPeer reports whether the TCP peer is an upstream bfe server.\nfunc fromTrustedPeer(r *bfe_basic.Request) bool {\n\treturn r.Session.TrustSource()\n}\n"},
+			{Name: "silent-log-mentions-real-ip", Silent: true, File: "bfe_server/reverseproxy.go", Old: "\t\tlog.Logger.Debug(\"ReverseProxy.ServeHTTP(): cluster name = %s\", clusterName)\n", New: "\t\tlog.Logger.Debug(\"ReverseProxy.ServeHTTP(): cluster name = %s, %s = %v\", clusterName, bfe_basic.HeaderRealIP, basicReq.ClientAddr)\n"},
+			{Name: "fallback-when-port-missing", File: "bfe_server/set_client_addr.go", Old: "\tif clientip == \"\" {\n\t\tclientip = getFirstSplitFromHeader(req, bfe_basic.HeaderForwardedFor, \",\")", New: "\tif clientip == \"\" || clientport == \"\" {\n\t\tclientip = getFirstSplitFromHeader(req, bfe_basic.HeaderForwardedFor, \",\")", Expect: "real-ip-precedence|"},
 		},
 	})
 }
@@ -63,13 +67,19 @@ func runC29(c *core.Ctx) {
 		return
 	}
 	isNil := func(v ssa.Value) bool { k, ok := v.(*ssa.Const); return ok && k.Value == nil }
+	// the private helpers of setClientAddr (parseClientAddr, getFirstSplitFromHeader,
+	// anything extracted from it) belong to the reviewed mechanism
+	caRegion := h1bRegionSet(c.P, setCA)
+	parseRegion := h1bRegionSet(c.P, parseCA)
+	// fieldOn: v is field fld of the object base (compared structurally; a
+	// parameter of a helper of setClientAddr stands for the argument it receives)
 	fieldOn := func(fld *types.Var, base ssa.Value) func(ssa.Value) bool {
 		return func(v ssa.Value) bool {
 			f, b := h1bFieldOf(v)
 			if f != fld || b == nil {
 				return false
 			}
-			return base == nil || core.Render(b) == core.Render(base)
+			return base == nil || h1bSamePath(c.P, caRegion, b, base)
 		}
 	}
 
@@ -77,7 +87,7 @@ func runC29(c *core.Ctx) {
 	n := map[string]int{}
 	for _, st := range core.FieldStores(all, clientAddr) {
 		k := core.FuncKey(st.Fn)
-		c.Check("clientaddr-writers", h1bOrd(k, n), st.Store.Pos(), st.Fn == setCA || st.Fn == parseCA,
+		c.Check("clientaddr-writers", h1bOrd(k, n), st.Store.Pos(), caRegion[st.Fn] || parseRegion[st.Fn],
 			"Request.ClientAddr is written in "+k+"; only setClientAddr and parseClientAddr (whose header-derived writes are gated on the trusted-source flag) are reviewed")
 	}
 	c.Min("clientaddr-writers", 3)
@@ -102,17 +112,17 @@ func runC29(c *core.Ctx) {
 			ci, ok := x.(ssa.CallInstruction)
 			return ok && ci.Common().StaticCallee() == parseCA
 		}
-		bad := h1bReach(setCA, nil, isPeerStore, trusted(true), core.IsReturn)
+		bad := h1bReachR(c.P, setCA, nil, isPeerStore, trusted(true), core.IsReturn)
 		c.Check("untrusted-gets-peer", "setClientAddr", setCA.Pos(), bad == nil,
 			"setClientAddr can return without `req.ClientAddr = req.RemoteAddr` on a path that did not see req.Session.TrustSource() == true: for an untrusted peer the client address is not the socket address")
 		c.Min("untrusted-gets-peer", 1)
 		nP := 0
-		core.Instrs(setCA, func(x ssa.Instruction) {
+		c.P.RegionInstrs(setCA, func(x ssa.Instruction) {
 			if !isPeerStore(x) {
 				return
 			}
 			nP++
-			later := core.ReachAvoiding(setCA, x, nil, func(y ssa.Instruction) bool {
+			later := h1bReachR(c.P, setCA, x, nil, nil, func(y ssa.Instruction) bool {
 				if st, ok := y.(*ssa.Store); ok && y != x {
 					f, _ := h1bFieldOf(st.Addr)
 					return f == clientAddr
@@ -124,7 +134,10 @@ func runC29(c *core.Ctx) {
 		})
 		c.Min("peer-is-final", 1)
 		nG := map[string]int{}
-		core.Instrs(setCA, func(x ssa.Instruction) {
+		c.P.RegionInstrs(setCA, func(x ssa.Instruction) {
+			if parseRegion[x.Parent()] {
+				return // reviewed through its call (below) and by rule fresh-object
+			}
 			what := ""
 			if st, ok := x.(*ssa.Store); ok {
 				if f, _ := h1bFieldOf(st.Addr); f == clientAddr && !isPeerStore(x) && !isNil(st.Val) {
@@ -135,10 +148,10 @@ func runC29(c *core.Ctx) {
 				what = "parseClientAddr"
 			}
 			if ci, ok := x.(ssa.CallInstruction); ok && what == "" {
-				if sc := ci.Common().StaticCallee(); sc != nil && sc != trustFn && core.FuncPkgRel(sc) == srv {
-					// any other bfe_server helper that receives the request may write it
+				if sc := ci.Common().StaticCallee(); sc != nil && sc != trustFn && core.FuncPkgRel(sc) == srv && !caRegion[sc] {
+					// any other bfe_server function that receives the request may write it
 					for _, a := range ci.Common().Args {
-						if a == ssa.Value(req) && len(core.FieldStores(core.TransitiveCallees(sc, 2), clientAddr)) > 0 {
+						if h1bSamePath(c.P, caRegion, a, req) && len(core.FieldStores(core.TransitiveCallees(sc, 2), clientAddr)) > 0 {
 							what = "helper:" + core.FuncKey(sc)
 						}
 					}
@@ -151,8 +164,8 @@ func runC29(c *core.Ctx) {
 			if i := strings.Index(kind, ":"); i > 0 {
 				kind = kind[:i]
 			}
-			c.Check("header-derived-guarded", h1bOrd("setClientAddr:"+kind, nG), x.Pos(), h1bGuarded(x.Block(), trusted(true)),
-				"setClientAddr derives the client address from request headers ("+what+") without being control-dependent on req.Session.TrustSource() == true; established: "+h1bJoinFacts(h1bFactsAt(x.Block())))
+			c.Check("header-derived-guarded", h1bOrd("setClientAddr:"+kind, nG), x.Pos(), h1bGuardedR(c.P, x.Block(), trusted(true)),
+				"setClientAddr derives the client address from request headers ("+what+") without being control-dependent on req.Session.TrustSource() == true; established: "+h1bJoinFacts(h1bFactsAtR(c.P, x.Block())))
 		})
 		c.Min("header-derived-guarded", 1)
 	}
@@ -160,7 +173,7 @@ func runC29(c *core.Ctx) {
 	n = map[string]int{}
 	for _, ci := range h1bStaticCallers(all, parseCA) {
 		k := core.FuncKey(ci.Parent())
-		c.Check("parse-callers", h1bOrd(k, n), ci.Pos(), ci.Parent() == setCA, "parseClientAddr (header-derived client address) is called from "+k+", outside the TrustSource() gate of setClientAddr")
+		c.Check("parse-callers", h1bOrd(k, n), ci.Pos(), caRegion[ci.Parent()], "parseClientAddr (header-derived client address) is called from "+k+", outside the TrustSource() gate of setClientAddr")
 	}
 	for _, u := range h1bFuncValueUses(all, parseCA) {
 		c.Check("parse-callers", h1bOrd(core.FuncKey(u.Parent())+":value", n), u.Pos(), false, "parseClientAddr is used as a function value; its callers cannot be enumerated")
@@ -182,7 +195,7 @@ func runC29(c *core.Ctx) {
 				return
 			}
 			k := core.FuncKey(fn)
-			ok2 := fn == parseCA && via == clientAddr
+			ok2 := parseRegion[fn] && via == clientAddr
 			if ok2 {
 				// dominated by a store of a fresh allocation into req.ClientAddr
 				ok2 = false
@@ -384,7 +397,7 @@ func runC29(c *core.Ctx) {
 					via := map[string]bool{}
 					fromCA := h1bDerives(a, func(v ssa.Value) bool {
 						f, b := h1bFieldOf(v)
-						return f == clientAddr && b != nil && core.Render(b) == core.Render(args[0])
+						return f == clientAddr && b != nil && h1bSamePath(c.P, nil, b, args[0])
 					}, via)
 					tainted := h1bDerives(a, func(v ssa.Value) bool {
 						if call, isCall := v.(*ssa.Call); isCall && core.CallIs(&call.Call, "bfe_http.Header.Get", "bfe_http.Header.GetDirect", "bfe_http.Header.Values") {
@@ -514,31 +527,25 @@ func runC29(c *core.Ctx) {
 	}
 	// the headers written by mod_header survive to the backend
 	c29RealAddrSurvives(c, serve)
-	// who mentions the X-Real-* names
+	// who uses the X-Real-* names as a header key (a comparison with the name
+	// or a log line that prints it neither reads nor writes the header)
 	n = map[string]int{}
-	allowed := map[*ssa.Function]bool{setCA: true}
-	if realFn != nil {
-		allowed[realFn] = true
+	allowed := h1bRegionSet(c.P, setCA, realFn)
+	isRealName := func(s string) bool {
+		if len(s) >= 16 {
+			return false
+		}
+		cs := h1bCanonical(s)
+		return cs == "X-Real-Ip" || cs == "X-Real-Port"
 	}
 	for _, fn := range all {
-		hit := ""
-		core.Instrs(fn, func(in ssa.Instruction) {
-			for _, op := range in.Operands(nil) {
-				if op == nil || *op == nil {
-					continue
-				}
-				if s, ok := core.ConstString(*op); ok && len(s) < 16 {
-					if cs := h1bCanonical(s); cs == "X-Real-Ip" || cs == "X-Real-Port" {
-						hit = cs
-					}
-				}
-			}
-		})
-		if hit == "" {
+		uses := h1bHeaderKeyUses(fn, isRealName)
+		if len(uses) == 0 {
 			continue
 		}
-		c.Check("real-name-census", h1bOrd(core.FuncKey(fn), n), fn.Pos(), allowed[fn], core.FuncKey(fn)+" mentions the header name "+hit+"; only setClientAddr (reads it under the trusted-source gate) and setHeaderRealAddr (overwrites it) are reviewed")
+		c.Check("real-name-census", h1bOrd(core.FuncKey(fn), n), fn.Pos(), allowed[fn], core.FuncKey(fn)+" uses the header name X-Real-Ip / X-Real-Port (as a key or passes it on: "+strings.TrimSpace(uses[0].String())+"); only setClientAddr and its private helpers (read under the trusted-source gate, rule real-ip-precedence) and setHeaderRealAddr (overwrites it) are reviewed")
 	}
+	c29RealIPPrecedence(c, setCA, parseCA)
 	c.Min("real-name-census", 2)
 }
 
@@ -727,4 +734,236 @@ func c29RealAddrSurvives(c *core.Ctx, serve *ssa.Function) {
 		}
 	}
 	c.Min(rule, 1)
+}
+
+// c29RealIPPrecedence: "for trusted peers the documented headers are
+// honoured": the address handed to parseClientAddr is the value of X-Real-Ip
+// whenever that header is present; a value taken from another header
+// (X-Forwarded-For) is used only where `Header.Get(X-Real-Ip) == ""` is
+// established. The ip argument of every parseClientAddr call in the region of
+// setClientAddr is traced back through phis, helper results and helper
+// parameters to the Header.Get calls it comes from; each origin that is not
+// X-Real-Ip needs the fact on its way.
+func c29RealIPPrecedence(c *core.Ctx, setCA, parseCA *ssa.Function) {
+	const rule = "real-ip-precedence"
+	p := c.P
+	region := h1bRegionSet(p, setCA)
+	type subst map[*ssa.Parameter]ssa.Value
+	resolve := func(v ssa.Value, sub subst) ssa.Value {
+		for i := 0; i < 8; i++ {
+			v = core.StripConv(v)
+			prm, ok := v.(*ssa.Parameter)
+			if !ok {
+				break
+			}
+			w, bound := sub[prm]
+			if !bound {
+				break
+			}
+			v = w
+		}
+		return v
+	}
+	isGetOf := func(name string) func(ssa.Value) bool {
+		return func(v ssa.Value) bool {
+			call := h1bCallOf(v, "bfe_http.Header.Get", "bfe_http.Header.GetDirect")
+			if call == nil || len(call.Call.Args) != 2 {
+				return false
+			}
+			s, ok := core.ConstString(call.Call.Args[1])
+			return ok && h1bCanonical(s) == name
+		}
+	}
+	realEmpty := func(fs []h1bFact) bool {
+		for _, f := range fs {
+			if h1bEq(f, isGetOf("X-Real-Ip"), h1bIsStr("")) {
+				return true
+			}
+			isLen := func(v ssa.Value) bool {
+				call, ok := core.StripConv(v).(*ssa.Call)
+				if !ok || len(call.Call.Args) != 1 {
+					return false
+				}
+				b, ok := call.Call.Value.(*ssa.Builtin)
+				return ok && b.Name() == "len" && isGetOf("X-Real-Ip")(call.Call.Args[0])
+			}
+			if h1bEq(f, isLen, h1bIsInt(0)) {
+				return true
+			}
+		}
+		return false
+	}
+	type leaf struct {
+		hdr   string // canonical header name, "" = not a header value
+		what  string
+		facts []h1bFact
+	}
+	var leaves []leaf
+	var walk func(v ssa.Value, facts []h1bFact, sub subst, seen map[ssa.Value]bool, d int)
+	walk = func(v ssa.Value, facts []h1bFact, sub subst, seen map[ssa.Value]bool, d int) {
+		v = resolve(v, sub)
+		if v == nil || d > 24 {
+			leaves = append(leaves, leaf{"", "a value the rule cannot follow", facts})
+			return
+		}
+		if seen[v] {
+			return
+		}
+		seen[v] = true
+		defer delete(seen, v)
+		add := func(b *ssa.BasicBlock) []h1bFact {
+			return append(append([]h1bFact(nil), facts...), h1bFactsAt(b)...)
+		}
+		switch x := v.(type) {
+		case *ssa.Const:
+			return // a constant (the empty string of "no such header")
+		case *ssa.Phi:
+			for i, e := range x.Edges {
+				fs := append(append([]h1bFact(nil), facts...), h1bFactsOnEdge(x.Block().Preds[i], x.Block())...)
+				walk(e, fs, sub, seen, d+1)
+			}
+		case *ssa.Parameter:
+			g := x.Parent()
+			sites := h1bCallSitesIn(p, g, region)
+			if g == setCA || len(sites) == 0 {
+				leaves = append(leaves, leaf{"", "parameter " + x.Name() + " of " + core.FuncKey(g), facts})
+				return
+			}
+			idx := -1
+			for i, q := range g.Params {
+				if q == x {
+					idx = i
+				}
+			}
+			for _, s := range sites {
+				if idx >= 0 && idx < len(s.Call.Args) {
+					walk(s.Call.Args[idx], add(s.Block()), sub, seen, d+1)
+				}
+			}
+		case *ssa.Extract:
+			if call, ok := x.Tuple.(*ssa.Call); ok {
+				if sc := call.Call.StaticCallee(); sc != nil && sc.Blocks != nil && core.FuncPkgRel(sc) != "" {
+					ns := subst{}
+					for k, w := range sub {
+						ns[k] = w
+					}
+					for i, prm := range sc.Params {
+						if i < len(call.Call.Args) {
+							ns[prm] = resolve(call.Call.Args[i], sub)
+						}
+					}
+					for _, r := range core.Returns(sc) {
+						vals := core.RetVals(r)
+						if x.Index < len(vals) {
+							walk(vals[x.Index], add(r.Block()), ns, seen, d+1)
+						}
+					}
+					return
+				}
+			}
+			walk(x.Tuple, facts, sub, seen, d+1)
+		case *ssa.Call:
+			if isGet := h1bCallOf(x, "bfe_http.Header.Get", "bfe_http.Header.GetDirect", "bfe_http.Header.Values"); isGet != nil && len(x.Call.Args) == 2 {
+				name := "?"
+				if s, ok := core.ConstString(resolve(x.Call.Args[1], sub)); ok {
+					name = h1bCanonical(s)
+				}
+				leaves = append(leaves, leaf{name, "Header.Get(" + name + ")", facts})
+				return
+			}
+			if sc := x.Call.StaticCallee(); sc != nil && sc.Blocks != nil && core.FuncPkgRel(sc) != "" {
+				ns := subst{}
+				for k, w := range sub {
+					ns[k] = w
+				}
+				for i, prm := range sc.Params {
+					if i < len(x.Call.Args) {
+						ns[prm] = resolve(x.Call.Args[i], sub)
+					}
+				}
+				for _, r := range core.Returns(sc) {
+					if vals := core.RetVals(r); len(vals) >= 1 {
+						walk(vals[0], add(r.Block()), ns, seen, d+1)
+					}
+				}
+				return
+			}
+			// a library function of strings (TrimSpace, Split, ...): the value derives from its arguments
+			n := 0
+			for _, a := range x.Call.Args {
+				if t, ok := a.Type().Underlying().(*types.Basic); ok && t.Info()&types.IsString != 0 {
+					if _, isK := core.StripConv(a).(*ssa.Const); !isK {
+						walk(a, facts, sub, seen, d+1)
+						n++
+					}
+				} else if _, isSl := a.Type().Underlying().(*types.Slice); isSl {
+					walk(a, facts, sub, seen, d+1)
+					n++
+				}
+			}
+			if n == 0 {
+				leaves = append(leaves, leaf{"", "the result of " + core.CalleeKey(&x.Call), facts})
+			}
+		case *ssa.Lookup:
+			name := "?"
+			if s, ok := core.ConstString(resolve(x.Index, sub)); ok {
+				name = h1bCanonical(s)
+			}
+			leaves = append(leaves, leaf{name, "header[" + name + "]", facts})
+		case *ssa.UnOp:
+			walk(x.X, facts, sub, seen, d+1)
+		case *ssa.IndexAddr:
+			walk(x.X, facts, sub, seen, d+1)
+		case *ssa.Index:
+			walk(x.X, facts, sub, seen, d+1)
+		case *ssa.Slice:
+			walk(x.X, facts, sub, seen, d+1)
+		case *ssa.BinOp:
+			walk(x.X, facts, sub, seen, d+1)
+			walk(x.Y, facts, sub, seen, d+1)
+		case *ssa.Alloc:
+			k := 0
+			if x.Referrers() != nil {
+				for _, r := range *x.Referrers() {
+					if st, ok := r.(*ssa.Store); ok && st.Addr == ssa.Value(x) {
+						walk(st.Val, add(st.Block()), sub, seen, d+1)
+						k++
+					}
+				}
+			}
+			if k == 0 {
+				leaves = append(leaves, leaf{"", "an unassigned variable", facts})
+			}
+		default:
+			leaves = append(leaves, leaf{"", core.Render(v), facts})
+		}
+	}
+	k := 0
+	for _, ci := range h1bStaticCallers(p.Region(setCA), parseCA) {
+		args := ci.Common().Args
+		if len(args) != 3 {
+			continue
+		}
+		k++
+		leaves = nil
+		walk(args[1], h1bFactsAtR(p, ci.Block()), subst{}, map[ssa.Value]bool{}, 0)
+		sawReal := false
+		var bad []string
+		for _, l := range leaves {
+			switch {
+			case l.hdr == "X-Real-Ip":
+				sawReal = true
+			case realEmpty(l.facts):
+			default:
+				bad = append(bad, l.what)
+			}
+		}
+		sort.Strings(bad)
+		key := fmt.Sprintf("setClientAddr:parse#%d:", k)
+		c.Check(rule, key+"real-ip-honoured", ci.Pos(), sawReal,
+			"the address parseClientAddr receives never comes from Header.Get(X-Real-Ip): the header a trusted upstream BFE sets is not honoured")
+		c.Check(rule, key+"fallback-only-if-absent", ci.Pos(), len(bad) == 0,
+			"the client address of a trusted peer can be taken from "+strings.Join(uniqStrings(bad), ", ")+" on a way that did not establish Header.Get(X-Real-Ip) == \"\": the documented precedence (X-Real-Ip first, X-Forwarded-For only when it is absent) is not kept, so the address reported by the upstream proxy is replaced by a value the original client controls")
+	}
+	c.Min(rule, 2)
 }
